@@ -19,6 +19,12 @@
 //   rules  (b) exactly one rule violation per connection followed by a
 //          canary message: nothing at or after the offending frame may be
 //          delivered and the peer must see a CLOSE frame and/or EOF.
+//   hs     one defect in the raw peer's half of the upgrade: must be refused.
+//   hsv    valid spellings of the upgrade (must be accepted, the frame behind
+//          them delivered) and near misses of the compared tokens (refused).
+//   conc   several nng_stream_send operations outstanding at once in message
+//          mode while the peer sends PINGs; one of them cancelled midway; a
+//          CLOSE from the peer meanwhile: the emitted stream stays well-formed.
 #include "vfh.h"
 
 #include <ctype.h>
@@ -478,6 +484,7 @@ typedef struct {
 	size_t consumed;
 	bool   ctl_fragmented; // a control frame without FIN was seen (recorded, not a rule here)
 	bool   ctl_over_max;   // a control frame whose payload, plus the unfinished message in front of it, exceeds recvmax
+	long   nctl_inmsg;     // control frames between the fragments of a message
 } wsdec;
 
 static void
@@ -551,6 +558,7 @@ wsdec_feed(wsdec *d, const uint8_t *s, size_t n)
 		frames++;
 		if (ctl) {
 			if (!f.fin) d->ctl_fragmented = true;
+			if (d->inmsg) d->nctl_inmsg++;
 			if (d->msgmode && d->recvmax > 0 && (d->inmsg ? d->msg_len : 0) + pl > d->recvmax) d->ctl_over_max = true;
 			if (f.op == OP_PING) {
 				d->nping++;
@@ -609,6 +617,8 @@ typedef struct {
 	int    hs_plan; // interposer plan active during the handshake: 0 none, 1 dribble, 2 random
 	int    hs_defect; // HS_NONE or the one defect the raw peer plants in its half of the upgrade
 	bool   sp1;       // SP roles: pair1 (4-byte hop header in front of every body) instead of pair0
+	int    hs_var;    // HV_NONE or a valid spelling variant of the raw peer's half of the upgrade
+	int    rx_niov;   // stream mode: receive into this many separately allocated buffers (0/1: one)
 } wscfg;
 
 // defects of the upgrade exchange.  HD_*: the raw server's 101 response to an
@@ -619,8 +629,23 @@ enum {
 	HD_UPGRADE_MISSING, HD_UPGRADE_WRONG, HD_CONN_MISSING, HD_CONN_WRONG, HD_PROTO_MISSING, HD_PROTO_WRONG,
 	HL_KEY_MISSING, HL_KEY_SHORT, HL_KEY_LONG, HL_VERSION_MISSING, HL_VERSION_8, HL_VERSION_14, HL_UPGRADE_MISSING, HL_UPGRADE_WRONG,
 	HL_CONN_MISSING, HL_CONN_WRONG, HL_METHOD_POST, HL_HTTP10, HL_PROTO_MISSING, HL_PROTO_WRONG,
+	// near misses of the tokens that are compared, either direction (hsv mode)
+	HX_CONN_NOUPGRADE, HX_CONN_UPGRADES, HX_UPGRADE_SUFFIX, HX_UPGRADE_PREFIX, HX_PROTO_SUFFIX, HX_PROTO_PREFIX,
 	HS_NDEFECTS
 };
+#define HX_FIRST HX_CONN_NOUPGRADE
+#define HX_LAST HX_PROTO_PREFIX
+// valid spellings of the raw peer's half of the upgrade: must be accepted
+enum {
+	HV_NONE = 0, HV_LOWER_NAMES, HV_CONN_LIST, HV_CONN_LIST_NOSPACE, HV_CONN_UPGRADE_FIRST, HV_UPGRADE_CASE, HV_EXTRA_HEADERS, HV_OWS,
+	HV_MULTI_PROTO_OR_REASON, // request: several subprotocols offered (SP roles); response: another reason phrase
+	HV_NVARIANTS
+};
+static const char *hv_names_req[HV_NVARIANTS] = { "plain", "lower-case-header-names", "connection-keep-alive-upgrade", "connection-list-without-space", "connection-upgrade-keep-alive", "upgrade-WebSocket", "extra-headers", "optional-whitespace",
+	"several-subprotocols-offered" };
+static const char *hv_names_res[HV_NVARIANTS] = { "plain", "lower-case-header-names", "connection-keep-alive-upgrade", "connection-list-without-space", "connection-upgrade-keep-alive", "upgrade-WebSocket", "extra-headers", "optional-whitespace",
+	"other-reason-phrase" };
+#define hv_name(role, hv) (ROLE_IS_SERVER(role) ? hv_names_req[hv] : hv_names_res[hv])
 #define HD_FIRST HD_ACCEPT_WRONG
 #define HD_LAST HD_PROTO_WRONG
 #define HL_FIRST HL_KEY_MISSING
@@ -628,7 +653,8 @@ enum {
 static const char *hs_names[HS_NDEFECTS] = { "none", "accept-wrong", "accept-missing", "accept-for-another-key", "accept-truncated", "status-200", "status-400", "status-404", "status-503",
 	"upgrade-missing", "upgrade-not-websocket", "connection-missing", "connection-not-upgrade", "subprotocol-missing", "subprotocol-wrong",
 	"key-missing", "key-too-short", "key-too-long", "version-missing", "version-8", "version-14", "upgrade-missing", "upgrade-not-websocket",
-	"connection-missing", "connection-not-upgrade", "method-post", "http-1.0", "subprotocol-missing", "subprotocol-wrong" };
+	"connection-missing", "connection-not-upgrade", "method-post", "http-1.0", "subprotocol-missing", "subprotocol-wrong",
+	"near-miss-connection-noupgrade", "near-miss-connection-upgrades", "near-miss-upgrade-websocket2", "near-miss-upgrade-xwebsocket", "near-miss-subprotocol-suffix", "near-miss-subprotocol-prefix" };
 
 #define DEFLT ((size_t) -1)
 #define MAXLOG 512
@@ -643,6 +669,10 @@ typedef struct {
 	bool               sock_open;
 	nng_aio           *rx_aio, *tx_aio, *conn_aio;
 	uint8_t           *rxbuf;
+	uint8_t           *rxv[4]; // scatter receive: buffers of their own (an overrun of one is an ASan report)
+	size_t             rxvl[4];
+	int                rxn;
+	const char        *emit_ctx; // appended to the key of violations in the emitted stream (NULL: nothing)
 	rpeer              raw;
 	size_t             hs_in; // handshake bytes nng had to read
 	int                hs_status; // status nng answered a (defective) upgrade request with
@@ -702,7 +732,16 @@ rx_cb(void *arg)
 		pthread_mutex_unlock(&e->mtx);
 		return;
 	}
-	if (!e->cfg.msgmode) {
+	if (!e->cfg.msgmode && e->rxn > 1) {
+		// gather: the count says how far the buffers were filled, in order
+		size_t left = nng_aio_count(e->rx_aio);
+		for (int i = 0; i < e->rxn && left > 0; i++) {
+			size_t n = left < e->rxvl[i] ? left : e->rxvl[i];
+			bb_add(&e->got, e->rxv[i], n);
+			left -= n;
+		}
+		if (left > 0) vf_violation("C16/ws-api/recv-count", "%s: stream receive into %d buffers completed with count %zu, more than they hold", e->desc, e->rxn, nng_aio_count(e->rx_aio));
+	} else if (!e->cfg.msgmode) {
 		bb_add(&e->got, e->rxbuf, nng_aio_count(e->rx_aio));
 	} else {
 		nng_msg *m = nng_aio_get_msg(e->rx_aio);
@@ -729,7 +768,15 @@ ep_post_recv(wsep *e)
 		nng_socket_recv(e->sock, e->rx_aio);
 		return;
 	}
-	if (!e->cfg.msgmode) {
+	if (!e->cfg.msgmode && e->rxn > 1) {
+		nng_iov iov[4];
+		for (int i = 0; i < e->rxn; i++) {
+			memset(e->rxv[i], 0xEE, e->rxvl[i]);
+			iov[i].iov_buf = e->rxv[i];
+			iov[i].iov_len = e->rxvl[i];
+		}
+		nng_aio_set_iov(e->rx_aio, (unsigned) e->rxn, iov);
+	} else if (!e->cfg.msgmode) {
 		nng_iov iov = { .iov_buf = e->rxbuf, .iov_len = e->cfg.rxbuf };
 		nng_aio_set_iov(e->rx_aio, 1, &iov);
 	}
@@ -744,6 +791,57 @@ hs_violation(wsep *e, const char *what, const char *detail)
 	vf_violation(key, "%s: %s", e->desc, detail);
 }
 
+// header field name, lower case for the variant that spells them so
+static const char *
+hname(const wscfg *c, const char *name, char buf[40])
+{
+	if (c->hs_var != HV_LOWER_NAMES) return name;
+	size_t i = 0;
+	for (; name[i] != 0 && i < 39; i++) buf[i] = (char) tolower((unsigned char) name[i]);
+	buf[i] = 0;
+	return buf;
+}
+
+// values of the compared header fields for this connection's defect / variant
+static const char *
+hs_upgrade_value(const wscfg *c)
+{
+	int df = c->hs_defect;
+	if (df == HL_UPGRADE_WRONG || df == HD_UPGRADE_WRONG) return "h2c";
+	if (df == HX_UPGRADE_SUFFIX) return "websocket2";
+	if (df == HX_UPGRADE_PREFIX) return "xwebsocket";
+	return c->hs_var == HV_UPGRADE_CASE ? "WebSocket" : "websocket";
+}
+
+static const char *
+hs_connection_value(const wscfg *c)
+{
+	int df = c->hs_defect;
+	if (df == HL_CONN_WRONG || df == HD_CONN_WRONG) return "keep-alive";
+	if (df == HX_CONN_NOUPGRADE) return "noupgrade";
+	if (df == HX_CONN_UPGRADES) return "keep-alive, upgrades";
+	switch (c->hs_var) {
+	case HV_CONN_LIST: return "keep-alive, Upgrade";
+	case HV_CONN_LIST_NOSPACE: return "keep-alive,Upgrade";
+	case HV_CONN_UPGRADE_FIRST: return "Upgrade, keep-alive";
+	case HV_LOWER_NAMES: return "upgrade";
+	default: return "Upgrade";
+	}
+}
+
+static const char *
+hs_proto_value(const wsep *e, bool request, char buf[96])
+{
+	int df = e->cfg.hs_defect;
+	if (df == HL_PROTO_WRONG || df == HD_PROTO_WRONG) return "rep.sp.nanomsg.org";
+	if (df == HX_PROTO_SUFFIX) snprintf(buf, 96, "%sx", SP_PROTO(e));
+	else if (df == HX_PROTO_PREFIX) snprintf(buf, 96, "%.*s", (int) strlen(SP_PROTO(e)) - 1, SP_PROTO(e));
+	else if (request && e->cfg.hs_var == HV_MULTI_PROTO_OR_REASON) snprintf(buf, 96, "x-unknown.example, %s", SP_PROTO(e));
+	else snprintf(buf, 96, "%s", SP_PROTO(e));
+	return buf;
+}
+
+
 // raw peer acts as the client: send the upgrade request, check the response
 static bool
 handshake_as_client(wsep *e, int port)
@@ -755,16 +853,20 @@ handshake_as_client(wsep *e, int port)
 	vf_fill(rnd, sizeof(rnd), vf_now_ns());
 	b64enc(rnd, 16, key);
 	ws_accept_for(key, want);
-	int df = e->cfg.hs_defect;
-	bb_printf(&rq, "%s /x HTTP/1.%d\r\nHost: 127.0.0.1:%d\r\n", df == HL_METHOD_POST ? "POST" : "GET", df == HL_HTTP10 ? 0 : 1, port);
-	if (df != HL_UPGRADE_MISSING) bb_printf(&rq, "Upgrade: %s\r\n", df == HL_UPGRADE_WRONG ? "h2c" : "websocket");
-	if (df != HL_CONN_MISSING) bb_printf(&rq, "Connection: %s\r\n", df == HL_CONN_WRONG ? "keep-alive" : "Upgrade");
+	int         df = e->cfg.hs_defect, hv = e->cfg.hs_var;
+	char        nb[40], pb[96];
+	const char *ows = hv == HV_OWS ? "  " : ""; // optional whitespace around the field values
+	bb_printf(&rq, "%s /x HTTP/1.%d\r\n%s: 127.0.0.1:%d\r\n", df == HL_METHOD_POST ? "POST" : "GET", df == HL_HTTP10 ? 0 : 1, hname(&e->cfg, "Host", nb), port);
+	if (hv == HV_EXTRA_HEADERS) bb_str(&rq, "Origin: http://example.test\r\nUser-Agent: raw-peer/1.0 (strict)\r\nSec-WebSocket-Extensions: permessage-deflate; client_max_window_bits\r\n");
+	if (df != HL_UPGRADE_MISSING) bb_printf(&rq, "%s: %s%s%s\r\n", hname(&e->cfg, "Upgrade", nb), ows, hs_upgrade_value(&e->cfg), ows);
+	if (df != HL_CONN_MISSING) bb_printf(&rq, "%s: %s%s%s\r\n", hname(&e->cfg, "Connection", nb), ows, hs_connection_value(&e->cfg), ows);
 	if (df == HL_KEY_SHORT) bb_printf(&rq, "Sec-WebSocket-Key: %.20s\r\n", key);
 	else if (df == HL_KEY_LONG) bb_printf(&rq, "Sec-WebSocket-Key: %.22sAAAA==\r\n", key);
-	else if (df != HL_KEY_MISSING) bb_printf(&rq, "Sec-WebSocket-Key: %s\r\n", key);
-	if (df != HL_VERSION_MISSING) bb_printf(&rq, "Sec-WebSocket-Version: %s\r\n", df == HL_VERSION_8 ? "8" : df == HL_VERSION_14 ? "14" : "13");
+	else if (df != HL_KEY_MISSING) bb_printf(&rq, "%s: %s%s%s\r\n", hname(&e->cfg, "Sec-WebSocket-Key", nb), ows, key, ows);
+	if (df != HL_VERSION_MISSING) bb_printf(&rq, "%s: %s%s%s\r\n", hname(&e->cfg, "Sec-WebSocket-Version", nb), ows, df == HL_VERSION_8 ? "8" : df == HL_VERSION_14 ? "14" : "13", ows);
 	if (df == HL_METHOD_POST) bb_str(&rq, "Content-Length: 0\r\n");
-	if (ROLE_IS_SP(e->cfg.role) && df != HL_PROTO_MISSING) bb_printf(&rq, "Sec-WebSocket-Protocol: %s\r\n", df == HL_PROTO_WRONG ? "rep.sp.nanomsg.org" : SP_PROTO(e));
+	if (ROLE_IS_SP(e->cfg.role) && df != HL_PROTO_MISSING) bb_printf(&rq, "%s: %s%s%s\r\n", hname(&e->cfg, "Sec-WebSocket-Protocol", nb), ows, hs_proto_value(e, true, pb), ows);
+	if (hv == HV_EXTRA_HEADERS) bb_str(&rq, "Cache-Control: no-cache\r\nPragma: no-cache\r\nCookie: a=b; c=d\r\n");
 	bb_str(&rq, "\r\n");
 	e->hs_in = rq.n;
 	vf_fd_write_all(e->raw.fd, rq.p, rq.n, 5000);
@@ -779,7 +881,10 @@ handshake_as_client(wsep *e, int port)
 		int f = rp_fill(&e->raw, 10000);
 		if (f <= 0) {
 			if (df != HS_NONE && f == 0) return false; // refusing by closing is a verdict too
-			vf_violation("C16/ws-handshake/no-response", "%s: upgrade request not answered (%s)", e->desc, f == 0 ? "connection closed" : "timeout");
+			// (a spelling variant may be refused - the property does not say which
+			// valid spellings are understood; the caller records the outcome)
+			if (hv != HV_NONE && f == 0) return false;
+			vf_violation("C16/ws-handshake/no-response", "%s: upgrade request not answered (%s)%s%s", e->desc, f == 0 ? "connection closed" : "timeout", hv != HV_NONE ? ", spelling variant " : "", hv != HV_NONE ? hv_name(e->cfg.role, hv) : "");
 			return false;
 		}
 	}
@@ -787,10 +892,12 @@ handshake_as_client(wsep *e, int port)
 	e->hs_status = m.status;
 	if (df != HS_NONE) return m.status == 101; // judged by the caller
 	if (m.status != 101) {
+		if (hv != HV_NONE) return false; // recorded by the caller, not a verdict
 		snprintf(line, sizeof(line), "status %d %.60s to a valid upgrade request", m.status, m.reason);
 		vf_violation("C16/ws-handshake/refused", "%s: %s", e->desc, line);
 		return false;
 	}
+	if (hmsg_get(&m, "Sec-WebSocket-Extensions") != NULL) hs_violation(e, "extension-not-supported-but-accepted", hmsg_get(&m, "Sec-WebSocket-Extensions"));
 	const char *v;
 	if ((v = hmsg_get(&m, "Upgrade")) == NULL || strcasecmp(v, "websocket") != 0) hs_violation(e, "upgrade-header", v ? v : "(missing)");
 	if ((v = hmsg_get(&m, "Connection")) == NULL || !has_token(v, "upgrade")) hs_violation(e, "connection-header", v ? v : "(missing)");
@@ -852,7 +959,9 @@ handshake_as_server(wsep *e, const bb *extra)
 	} else if (v != NULL) {
 		hs_violation(e, "subprotocol-unexpected", v);
 	}
-	int df = e->cfg.hs_defect;
+	int         df = e->cfg.hs_defect, hv = e->cfg.hs_var;
+	char        nb[40], pb[96];
+	const char *ows = hv == HV_OWS ? "  " : "";
 	ws_accept_for(df == HD_ACCEPT_OTHER_KEY ? "dGhlIHNhbXBsZSBub25jZQ==" : key, acc);
 	if (df == HD_ACCEPT_WRONG) acc[5] = acc[5] == 'A' ? 'B' : 'A';
 	if (df == HD_ACCEPT_TRUNCATED) acc[27] = 0;
@@ -861,12 +970,14 @@ handshake_as_server(wsep *e, const bb *extra)
 	case HD_STATUS_400: bb_str(&rs, "HTTP/1.1 400 Bad Request\r\n"); break;
 	case HD_STATUS_404: bb_str(&rs, "HTTP/1.1 404 Not Found\r\n"); break;
 	case HD_STATUS_503: bb_str(&rs, "HTTP/1.1 503 Service Unavailable\r\n"); break;
-	default: bb_str(&rs, "HTTP/1.1 101 Switching Protocols\r\n"); break;
+	default: bb_printf(&rs, "HTTP/1.1 101 %s\r\n", hv == HV_MULTI_PROTO_OR_REASON ? "Web Socket Protocol Handshake" : "Switching Protocols"); break;
 	}
-	if (df != HD_UPGRADE_MISSING) bb_printf(&rs, "Upgrade: %s\r\n", df == HD_UPGRADE_WRONG ? "h2c" : "websocket");
-	if (df != HD_CONN_MISSING) bb_printf(&rs, "Connection: %s\r\n", df == HD_CONN_WRONG ? "keep-alive" : "Upgrade");
-	if (df != HD_ACCEPT_MISSING) bb_printf(&rs, "Sec-WebSocket-Accept: %s\r\n", acc);
-	if (ROLE_IS_SP(e->cfg.role) && df != HD_PROTO_MISSING) bb_printf(&rs, "Sec-WebSocket-Protocol: %s\r\n", df == HD_PROTO_WRONG ? "rep.sp.nanomsg.org" : SP_PROTO(e));
+	if (hv == HV_EXTRA_HEADERS) bb_str(&rs, "Server: raw-peer/1.0\r\nDate: Thu, 24 Sep 2026 10:00:00 GMT\r\n");
+	if (df != HD_UPGRADE_MISSING) bb_printf(&rs, "%s: %s%s%s\r\n", hname(&e->cfg, "Upgrade", nb), ows, hs_upgrade_value(&e->cfg), ows);
+	if (df != HD_CONN_MISSING) bb_printf(&rs, "%s: %s%s%s\r\n", hname(&e->cfg, "Connection", nb), ows, hs_connection_value(&e->cfg), ows);
+	if (df != HD_ACCEPT_MISSING) bb_printf(&rs, "%s: %s%s%s\r\n", hname(&e->cfg, "Sec-WebSocket-Accept", nb), ows, acc, ows);
+	if (ROLE_IS_SP(e->cfg.role) && df != HD_PROTO_MISSING) bb_printf(&rs, "%s: %s%s%s\r\n", hname(&e->cfg, "Sec-WebSocket-Protocol", nb), ows, hs_proto_value(e, false, pb), ows);
+	if (hv == HV_EXTRA_HEADERS) bb_str(&rs, "X-Frame-Options: deny\r\nVary: Origin\r\n");
 	bb_str(&rs, "\r\n");
 	e->hs_in = rs.n;
 	if (extra != NULL) bb_add(&rs, extra->p, extra->n);
@@ -903,9 +1014,23 @@ ep_open(wsep *e, const wscfg *cfg, const bb *extra)
 	CK(nng_aio_alloc(&e->rx_aio, rx_cb, e));
 	CK(nng_aio_alloc(&e->tx_aio, NULL, NULL));
 	CK(nng_aio_alloc(&e->conn_aio, NULL, NULL));
-	nng_aio_set_timeout(e->conn_aio, 10000);
+	nng_aio_set_timeout(e->conn_aio, 30000);
 	nng_aio_set_timeout(e->tx_aio, 10000);
 	e->rxbuf = malloc(cfg->rxbuf ? cfg->rxbuf : 1);
+	if (!e->cfg.msgmode && cfg->rx_niov > 1 && cfg->rxbuf >= 2) {
+		// 1, 7, 2, rest bytes (every buffer at least one byte, together cfg->rxbuf)
+		static const size_t want[4] = { 1, 7, 2, 0 };
+		size_t left = cfg->rxbuf;
+		e->rxn = cfg->rx_niov > 4 ? 4 : cfg->rx_niov;
+		if ((size_t) e->rxn > left) e->rxn = (int) left;
+		for (int i = 0; i < e->rxn; i++) {
+			size_t l = i == e->rxn - 1 ? left : want[i];
+			if (l > left - (size_t) (e->rxn - 1 - i)) l = left - (size_t) (e->rxn - 1 - i);
+			e->rxv[i]  = malloc(l);
+			e->rxvl[i] = l;
+			left -= l;
+		}
+	}
 	ep_describe(e);
 	e->eff_maxframe = cfg->maxframe == DEFLT ? (1u << 20) : cfg->maxframe;
 	e->eff_recvmax  = cfg->recvmax == DEFLT ? (1u << 20) : cfg->recvmax;
@@ -963,7 +1088,11 @@ ep_open(wsep *e, const wscfg *cfg, const bb *extra)
 		nng_aio_wait(e->conn_aio);
 		e->hs_rv = nng_aio_result(e->conn_aio);
 		if (ok && cfg->hs_defect == HS_NONE && nng_aio_result(e->conn_aio) != 0) {
-			vf_violation("C16/ws-handshake/dial-failed", "%s: correct 101 response refused by the dialer: %s", e->desc, nng_strerror(nng_aio_result(e->conn_aio)));
+			// (a spelling variant may be refused: recorded by the caller; a dial
+			// that only timed out is no verdict either way)
+			if (cfg->hs_var == HV_NONE || nng_aio_result(e->conn_aio) == NNG_ETIMEDOUT)
+				vf_violation("C16/ws-handshake/dial-failed", "%s: correct 101 response%s%s %s: %s", e->desc, cfg->hs_var != HV_NONE ? ", spelling variant " : "", cfg->hs_var != HV_NONE ? hv_name(cfg->role, cfg->hs_var) : "",
+				    cfg->hs_var != HV_NONE ? "neither accepted nor refused by the dialer" : "refused by the dialer", nng_strerror(nng_aio_result(e->conn_aio)));
 			ok = false;
 		}
 		if (nng_aio_result(e->conn_aio) == 0) e->st = nng_aio_get_output(e->conn_aio, 0);
@@ -1073,6 +1202,7 @@ ep_free(wsep *e)
 	bb_free(&e->got);
 	wsdec_free(&e->emit);
 	free(e->rxbuf);
+	for (int i = 0; i < e->rxn; i++) free(e->rxv[i]);
 	pthread_mutex_destroy(&e->mtx);
 }
 
@@ -1085,9 +1215,9 @@ emit_pump(wsep *e)
 	// the decoder works on the frame stream: bytes after the handshake
 	wsdec_feed(&e->emit, e->raw.in.p + e->raw.pos, e->raw.in.n - e->raw.pos);
 	if (e->emit.viol != NULL) {
-		char key[96];
-		snprintf(key, sizeof(key), "C16/ws-emit/%s", e->emit.viol);
-		vf_violation(key, "%s: frame emitted by nng at stream offset %zu violates RFC 6455 (%s)", e->desc, e->emit.viol_at, e->emit.viol);
+		char key[128];
+		snprintf(key, sizeof(key), "C16/ws-emit/%s%s%s", e->emit.viol, e->emit_ctx ? "/" : "", e->emit_ctx ? e->emit_ctx : "");
+		vf_violation(key, "%s: frame emitted by nng at stream offset %zu violates RFC 6455 (%s)%s%s", e->desc, e->emit.viol_at, e->emit.viol, e->emit_ctx ? " during " : "", e->emit_ctx ? e->emit_ctx : "");
 	}
 	if (e->emit.ctl_fragmented) {
 		vf_violation("C16/ws-emit/fragmented-control-frame", "%s: nng emitted a control frame without FIN", e->desc);
@@ -1544,14 +1674,14 @@ close_phase(wsep *e, vf_rng *r, bool healthy)
 		put_frame(&w, true, 0, OP_CLOSE, masked, gen_mask(r), code, 2, 0);
 		vf_fd_write_all(e->raw.fd, w.p, w.n, 2000);
 		bb_free(&w);
-		uint64_t end = vf_now_ns() + 5000000000ULL;
+		uint64_t end = vf_now_ns() + 30000000000ULL;
 		while (!e->raw.eof && vf_now_ns() < end) {
 			rp_fill(&e->raw, 100);
 			emit_pump(e);
 			if (e->emit.nclose) break;
 		}
 		if (e->emit.nclose == 0 && !e->raw.eof) {
-			vf_violation("C16/ws-emit/close-not-answered", "%s: CLOSE frame sent by the peer was neither answered nor the connection closed within 5 s", e->desc);
+			vf_violation("C16/ws-emit/close-not-answered", "%s: CLOSE frame sent by the peer was neither answered nor the connection closed within 30 s", e->desc);
 		} else {
 			vf_stat("ws_close_answered", 1);
 		}
@@ -1611,6 +1741,12 @@ valid_case(long idx)
 	vf_rng_seed(&r, vf_seed, (uint64_t) idx);
 	bool small = !vf_chance(&r, 1, 4);
 	gen_cfg(&r, &c, small);
+	{
+		// (a stream of its own for later additions: the cases stay what they were)
+		vf_rng r2;
+		vf_rng_seed(&r2, vf_seed ^ 0xC16510FULL, (uint64_t) idx);
+		if (!c.msgmode && c.rxbuf >= 2 && vf_chance(&r2, 1, 2)) c.rx_niov = (int) vf_range(&r2, 2, 4);
+	}
 	g_ctl_max = c.maxframe > 0 && c.maxframe < 125 ? c.maxframe : 125;
 	g_sp1     = c.sp1;
 	gen_valid_stream(&r, &c, &s, small);
@@ -1684,10 +1820,372 @@ valid_case(long idx)
 	close_phase(&e, &r, ok);
 	if (c.sp1) vf_stat("ws_pair1_cases", 1);
 	vf_class("ws-valid/%s%s/%s/%s%s%s%s", role_names[c.role], c.sp1 ? "(pair1)" : "", c.msgmode ? "msg" : "stream", len <= 300 ? "exhaustive-cuts" : "sampled-cuts", s.npings ? "/pings" : "", ref.ndata_frames > ref.nmsg ? "/fragmented" : "", with_hs ? "/behind-handshake" : "");
+	if (e.rxn > 1) {
+		vf_stat("ws_scatter_recv_cases", 1);
+		vf_class("ws-valid-scatter/%s/iov=%d/%s", role_names[c.role], e.rxn, c.rxbuf <= 9 ? "tiny-buffers" : c.rxbuf <= 300 ? "small-buffers" : "large-buffer");
+	}
 	if ((idx % 37) == 0) vf_sample("{\"mode\":\"valid\",\"endpoint\":\"%s\",\"stream_bytes\":%zu,\"messages\":%d,\"data_frames\":%ld,\"pings\":%d,\"replays\":%ld}", e.desc, len, ref.nmsg, ref.ndata_frames, s.npings, n);
 	ep_free(&e);
 	wsdec_free(&ref);
 	bb_free(&s.wire);
+}
+
+// ================================================================ conc mode
+// Several nng_stream_send operations outstanding at once on a message mode
+// connection (each message longer than NNG_OPT_WS_SENDMAXFRAME), while the
+// raw peer sends PINGs: the emitted frame stream must stay well-formed (the
+// fragments of one message are not interleaved with another message, RFC
+// 6455 5.4; PONGs may sit between them), every message must arrive exactly as
+// sent (any order), every PING must be answered with its payload.
+//   CV_CANCEL      one of the sends is cancelled after some frames went out:
+//                  the message is either emitted completely or not at all, or
+//                  the connection is failed - the next message never starts
+//                  inside an unfinished one
+//   CV_PEER_CLOSE  the peer sends CLOSE while the sends are in progress: no
+//                  data frame may follow nng's own CLOSE frame
+enum { CV_PLAIN = 0, CV_CANCEL, CV_PEER_CLOSE };
+static const char *cv_names[] = { "concurrent-sends", "cancelled-send", "peer-close-during-sends" };
+#define NCONC 3
+#define NCPING 200
+
+// one emitted message [i] of the strict decoder's log
+static const uint8_t *
+emit_msg(const wsep *e, int i, size_t *len)
+{
+	size_t a = i > 0 ? e->emit.bound[i - 1] : 0;
+	*len     = e->emit.bound[i] - a;
+	return e->emit.data.p + a;
+}
+
+// returns true when the connection is still usable afterwards
+static bool
+conc_round(wsep *e, vf_rng *r, int variant, const char **outcome)
+{
+	int       k = (int) vf_range(r, 2, NCONC);
+	nng_aio  *aio[NCONC];
+	uint8_t  *pay[NCONC];
+	size_t    len[NCONC], total = 0;
+	int       res[NCONC];
+	bool      seen[NCONC];
+	size_t    fs     = e->eff_fragsize;
+	bool      masked = ROLE_IS_SERVER(e->cfg.role);
+	bb        want_pongs = { 0 };
+	// PINGs: 1-3, one per turn of the loop below; the cancel variant keeps
+	// sending them until it has cancelled (PONGs are queued in front of the
+	// next fragment, which is where a cancellation finds it waiting)
+	int       np = variant == CV_CANCEL ? NCPING : (int) vf_range(r, 1, 3);
+	bool      healthy = true;
+	*outcome = "ok";
+	for (int i = 0; i < k; i++) {
+		// longer than one frame whenever there is a frame limit
+		size_t n;
+		if (fs == 0) n = vf_range(r, 1, 3000);
+		else if (fs < 100) n = fs * (variant == CV_CANCEL ? vf_range(r, 20, 120) : vf_range(r, 2, 40)) + vf_below(r, (uint32_t) fs);
+		else if (fs <= 2000) n = fs * vf_range(r, 1, 3) + vf_range(r, 1, (uint32_t) fs);
+		else n = fs + vf_range(r, 1, 3000);
+		len[i] = n;
+		pay[i] = malloc(n);
+		vf_fill(pay[i], n, vf_rand(r));
+		pay[i][0] = (uint8_t) ('A' + i);
+		total += n;
+		seen[i] = false;
+		res[i]  = -1;
+		CK(nng_aio_alloc(&aio[i], NULL, NULL));
+		nng_aio_set_timeout(aio[i], NNG_DURATION_INFINITE); // (the loop below has the deadline)
+	}
+	// slow writes: the PINGs arrive while nng is emitting fragments
+	const char *wplan = "full";
+	switch (variant == CV_CANCEL ? 0 : vf_below(r, 4)) {
+	case 0:
+	case 1:
+		if (total <= 8000) { vf_io_plan(VF_IO_DRIBBLE, (long) vf_range(r, 1, 3), VF_IO_FULL, 0, vf_rand(r)); wplan = "dribble"; }
+		else { vf_io_plan(VF_IO_RANDOM, 3000, VF_IO_FULL, 0, vf_rand(r)); wplan = "random"; }
+		break;
+	case 2: vf_io_plan(VF_IO_RANDOM, (long) vf_range(r, 2, 2000), VF_IO_FULL, 0, vf_rand(r)); wplan = "random"; break;
+	default: break;
+	}
+	(void) wplan;
+	emit_pump(e);
+	int    nmsg0  = e->emit.nmsg;
+	int    npong0 = e->emit.npong;
+	size_t pong0  = e->emit.pongs.n;
+	long   ctl0   = e->emit.nctl_inmsg;
+	long   fr0    = e->emit.ndata_frames;
+	long   cancel_after = (long) vf_range(r, 1, 4);
+	int    victim = (int) vf_below(r, (uint32_t) k);
+	bool   victim_midway = false;
+	(void) victim_midway;
+	e->emit.max_data_frame = 0;
+	e->emit_ctx = cv_names[variant];
+
+	for (int i = 0; i < k; i++) {
+		nng_msg *m;
+		CK(nng_msg_alloc(&m, len[i]));
+		memcpy(nng_msg_body(m), pay[i], len[i]);
+		nng_aio_set_msg(aio[i], m);
+		nng_stream_send(e->st, aio[i]);
+	}
+	uint64_t end = vf_now_ns() + 120000000000ULL;
+	int      pj = 0;
+	bool     acted = false, stalled = false;
+	for (;;) {
+		emit_pump(e);
+		if (pj < np && !(variant == CV_CANCEL && acted)) {
+			bb      w = { 0 };
+			uint8_t pl[24];
+			size_t  n = vf_below(r, 21);
+			if (n > g_ctl_max) n = g_ctl_max;
+			vf_fill(pl, n, vf_rand(r));
+			put_frame(&w, true, 0, OP_PING, masked, gen_mask(r), pl, n, 0);
+			lp_add(&want_pongs, pl, n);
+			vf_fd_write_all(e->raw.fd, w.p, w.n, 5000);
+			bb_free(&w);
+			pj++;
+		}
+		bool alldone = true;
+		for (int i = 0; i < k; i++)
+			if (nng_aio_busy(aio[i])) alldone = false;
+		bool due = alldone || e->emit.ndata_frames - fr0 >= cancel_after;
+		if (!acted && ((variant == CV_CANCEL && (due || pj == np)) || (variant == CV_PEER_CLOSE && pj == np && due))) {
+			if (variant == CV_CANCEL) {
+				// the message that is on its way, if the peer can tell which
+				if (e->emit.inmsg && e->emit.cur.n > 0 && e->emit.cur.p[0] >= 'A' && e->emit.cur.p[0] < 'A' + k) {
+					victim        = e->emit.cur.p[0] - 'A';
+					victim_midway = true;
+					vf_stat("ws_tx_cancel_midway", 1);
+				}
+				nng_aio_cancel(aio[victim]);
+			} else {
+				bb      w = { 0 };
+				uint8_t code[2] = { 0x03, 0xe8 };
+				put_frame(&w, true, 0, OP_CLOSE, masked, gen_mask(r), code, 2, 0);
+				vf_fd_write_all(e->raw.fd, w.p, w.n, 5000);
+				bb_free(&w);
+			}
+			acted = true;
+		}
+		if (e->raw.eof || e->emit.viol != NULL) break;
+		if (alldone) {
+			if (variant == CV_PLAIN && e->emit.nmsg >= nmsg0 + k && e->emit.npong >= npong0 + np) break;
+			if (variant == CV_CANCEL && acted) break;
+		}
+		if (variant == CV_PEER_CLOSE && acted && e->emit.nclose > 0) break;
+		if (vf_now_ns() > end) {
+			stalled = true;
+			break;
+		}
+		rp_fill(&e->raw, 2);
+	}
+	vf_io_plan(VF_IO_FULL, 0, VF_IO_FULL, 0, 0);
+	np = pj;
+	// (an operation left behind by a connection that nng has closed is C02's
+	// business: it is cancelled here, not judged)
+	if (variant == CV_PEER_CLOSE && !stalled && e->emit.viol == NULL) {
+		// the rest of what nng wrote, until it closes the connection (no verdict on that here)
+		uint64_t dend = vf_now_ns() + 30000000000ULL;
+		while (!e->raw.eof && vf_now_ns() < dend) rp_fill(&e->raw, 20);
+	}
+	for (int i = 0; i < k; i++) {
+		if (nng_aio_busy(aio[i]) && (variant == CV_PEER_CLOSE || e->raw.eof || stalled || e->emit.viol != NULL)) nng_aio_cancel(aio[i]);
+		nng_aio_wait(aio[i]);
+		res[i] = nng_aio_result(aio[i]);
+		if (res[i] != 0) {
+			nng_msg *m = nng_aio_get_msg(aio[i]);
+			if (m) nng_msg_free(m);
+			nng_aio_set_msg(aio[i], NULL);
+		}
+	}
+	if (variant == CV_CANCEL && e->raw.eof && e->emit.viol == NULL && !stalled) {
+		// the cancelled send took the connection with it: allowed
+		healthy  = false;
+		*outcome = "connection-failed";
+	}
+	if (stalled && e->emit.viol == NULL) {
+		vf_violation("C16/ws-emit/concurrent-sends-stalled", "%s: %s: %d sends of %zu bytes in all and %d PINGs: not completed after 120 s on a connection whose peer reads everything (%d messages, %d PONGs seen)", e->desc, cv_names[variant], k, total, np, e->emit.nmsg - nmsg0, e->emit.npong - npong0);
+		healthy = false;
+		*outcome = "STALLED";
+	}
+	if (e->emit.viol != NULL) {
+		healthy = false;
+		*outcome = "MALFORMED-STREAM";
+	}
+	// the cancelled case: one more message behind it; it must not start inside
+	// an unfinished one (the strict decoder says so), and it is the barrier
+	// that tells everything in front of it has been parsed
+	bool    barrier_ok = false;
+	uint8_t cmsg[64];
+	size_t  clen = 1 + vf_below(r, sizeof(cmsg) - 1);
+	vf_fill(cmsg, clen, vf_rand(r));
+	cmsg[0] = 'Z';
+	if (healthy && variant == CV_CANCEL && !e->raw.eof) {
+		nng_msg *m;
+		int      n0 = e->emit.nmsg;
+		CK(nng_msg_alloc(&m, clen));
+		memcpy(nng_msg_body(m), cmsg, clen);
+		nng_aio_set_timeout(e->tx_aio, NNG_DURATION_INFINITE);
+		nng_aio_set_msg(e->tx_aio, m);
+		nng_stream_send(e->st, e->tx_aio);
+		uint64_t cend = vf_now_ns() + 120000000000ULL;
+		for (;;) {
+			emit_pump(e);
+			if (e->raw.eof || e->emit.viol != NULL) break;
+			if (!nng_aio_busy(e->tx_aio)) {
+				if (nng_aio_result(e->tx_aio) != 0) break;
+				// sent: it must turn up as the last message
+				size_t l;
+				if (e->emit.nmsg > n0 && e->emit.nmsg <= MAXMSG) {
+					const uint8_t *p = emit_msg(e, e->emit.nmsg - 1, &l);
+					if (l == clen && memcmp(p, cmsg, l) == 0) barrier_ok = true;
+				}
+				// (a PING read after this send was queued is answered behind it)
+				if (barrier_ok && e->emit.npong >= npong0 + np) break;
+			}
+			if (vf_now_ns() > cend) break;
+			rp_fill(&e->raw, 2);
+		}
+		if (nng_aio_busy(e->tx_aio)) nng_aio_cancel(e->tx_aio);
+		nng_aio_wait(e->tx_aio);
+		if (nng_aio_result(e->tx_aio) != 0) {
+			nng_msg *fm = nng_aio_get_msg(e->tx_aio);
+			if (fm) nng_msg_free(fm);
+			nng_aio_set_msg(e->tx_aio, NULL);
+		}
+		nng_aio_set_timeout(e->tx_aio, 10000);
+		if (e->emit.viol != NULL) {
+			healthy = false;
+			*outcome = "MALFORMED-STREAM";
+		} else if (!barrier_ok) {
+			// the connection went down with the cancelled send (or the last
+			// send failed): allowed, nothing more can be said about it
+			healthy = false;
+			*outcome = "connection-failed";
+			if (!e->raw.eof && e->emit.nclose == 0 && nng_aio_result(e->tx_aio) == 0) {
+				vf_violation("C16/ws-emit/payload-differs/cancelled-send", "%s: the message sent after a cancelled send completed but did not reach the peer within 120 s", e->desc);
+				*outcome = "LOST";
+			}
+		}
+	}
+	if (variant == CV_PEER_CLOSE && e->emit.viol == NULL && !stalled) {
+		// nng answers with CLOSE; whatever follows that frame must not be a data frame
+		healthy = false;
+		emit_pump(e);
+		*outcome = e->emit.nclose ? "close-frame" : "eof";
+		if (e->emit.nclose > 0) {
+			size_t o = e->raw.pos + e->emit.consumed;
+			while (o < e->raw.in.n) {
+				fhdr   f;
+				size_t hl = parse_fhdr(e->raw.in.p + o, e->raw.in.n - o, &f);
+				if (hl == 0) break;
+				if (f.op < 8) {
+					vf_violation("C16/ws-emit/data-frame-after-close", "%s: nng emitted a data frame (opcode %d, %llu bytes) after its CLOSE frame", e->desc, f.op, (unsigned long long) f.len);
+					*outcome = "DATA-AFTER-CLOSE";
+					break;
+				}
+				if (f.len > e->raw.in.n - o - hl) break;
+				o += hl + (size_t) f.len;
+			}
+		}
+	}
+	// what arrived: every message is one of those sent, at most once; complete
+	// sends are all there (as long as the connection stood)
+	if (e->emit.viol == NULL && !stalled) {
+		int  nm = e->emit.nmsg - nmsg0 - (barrier_ok ? 1 : 0);
+		bool bad = false;
+		for (int j = 0; j < nm && nmsg0 + j < MAXMSG && !bad; j++) {
+			size_t         l;
+			const uint8_t *p = emit_msg(e, nmsg0 + j, &l);
+			int            hit = -1;
+			for (int i = 0; i < k; i++)
+				if (!seen[i] && l == len[i] && memcmp(p, pay[i], l) == 0) hit = i;
+			if (hit < 0) {
+				vf_violation("C16/ws-emit/payload-differs/concurrent-sends", "%s: %s: message %d of %zu bytes received by the peer is none of the %d messages sent (or a duplicate)", e->desc, cv_names[variant], j, l, k);
+				bad = true;
+			} else {
+				seen[hit] = true;
+			}
+		}
+		bool alive = variant == CV_PLAIN || (variant == CV_CANCEL && barrier_ok);
+		for (int i = 0; i < k && !bad && alive; i++) {
+			if (res[i] == 0 && !seen[i]) {
+				vf_violation("C16/ws-emit/payload-differs/concurrent-sends", "%s: %s: send %d of %zu bytes completed successfully but the message did not reach the peer", e->desc, cv_names[variant], i, len[i]);
+				bad = true;
+			}
+			if (res[i] != 0 && variant == CV_PLAIN) {
+				vf_violation("C16/ws-emit/send-failed/concurrent-sends", "%s: send %d of %d concurrent sends on a healthy connection failed: %s", e->desc, i, k, nng_strerror(res[i]));
+				bad = true;
+			}
+		}
+		if (!bad && fs > 0 && e->emit.max_data_frame > fs) {
+			char key[96];
+			snprintf(key, sizeof(key), "C16/ws-emit/frame-above-sendmaxframe/%s", role_names[e->cfg.role]);
+			vf_violation(key, "%s: %s: data frame of %zu bytes although NNG_OPT_WS_SENDMAXFRAME is %zu", e->desc, cv_names[variant], e->emit.max_data_frame, fs);
+			bad = true;
+		}
+		if (!bad && alive) {
+			if (e->emit.npong - npong0 != np) {
+				vf_violation("C16/ws-emit/pong-missing", "%s: %s: %d PING frames sent while nng was sending, %d PONG frames received", e->desc, cv_names[variant], np, e->emit.npong - npong0);
+				bad = true;
+			} else if (!lp_same(e->emit.pongs.p + pong0, e->emit.pongs.n - pong0, want_pongs.p, want_pongs.n)) {
+				vf_violation("C16/ws-emit/pong-payload", "%s: %s: PONG payloads are not the PING payloads", e->desc, cv_names[variant]);
+				bad = true;
+			}
+		}
+		if (bad) {
+			healthy  = false;
+			*outcome = "WRONG";
+		} else if (variant == CV_CANCEL && barrier_ok) {
+			*outcome = res[victim] == 0 ? "completed-anyway" : seen[victim] ? "cancelled-but-emitted" : "not-emitted";
+		}
+		if (!bad) {
+			vf_stat("ws_tx_concurrent_sends", k);
+			vf_stat("ws_tx_concurrent_rounds", 1);
+			vf_stat("ws_tx_ping_during_fragments", e->emit.nctl_inmsg - ctl0);
+			if (e->emit.ndata_frames - fr0 > nm + (barrier_ok ? 1 : 0)) vf_stat("ws_tx_concurrent_fragmented", 1);
+		}
+	}
+	e->emit_ctx = NULL;
+	for (int i = 0; i < k; i++) {
+		nng_aio_free(aio[i]);
+		free(pay[i]);
+	}
+	bb_free(&want_pongs);
+	return healthy;
+}
+
+static void
+conc_case(long idx)
+{
+	static const size_t frags[] = { 1, 125, 1000, 126, 65536, 0, 7 };
+	static const int    variants[] = { CV_PLAIN, CV_CANCEL, CV_PLAIN, CV_PEER_CLOSE, CV_CANCEL };
+	vf_rng      r;
+	wscfg       c;
+	wsep        e;
+	const char *outcome = "not-opened";
+	vf_rng_seed(&r, vf_seed, (uint64_t) idx);
+	memset(&c, 0, sizeof(c));
+	c.role      = (idx & 1) ? R_SD : R_SL;
+	c.msgmode   = true;
+	c.fragsize  = frags[(idx / 2) % 7];
+	int variant = variants[(idx / 14) % 5];
+	c.maxframe  = vf_chance(&r, 1, 2) ? 0 : (1u << 20);
+	c.recvmax   = vf_chance(&r, 1, 2) ? 0 : (1u << 20);
+	c.send_text = vf_chance(&r, 1, 3);
+	c.rxbuf     = 64;
+	g_ctl_max   = 125;
+	vf_case_begin(idx, "ws %s on %s/msg fragsize=%zu", cv_names[variant], role_names[c.role], c.fragsize);
+	bool ok = ep_open(&e, &c, NULL);
+	if (ok) {
+		int rounds = variant == CV_PLAIN ? (int) vf_range(&r, 1, 3) : 1;
+		// (a round of plain concurrent sends first, sometimes)
+		if (variant != CV_PLAIN && vf_chance(&r, 1, 2)) ok = conc_round(&e, &r, CV_PLAIN, &outcome);
+		for (int i = 0; i < rounds && ok; i++) ok = conc_round(&e, &r, variant, &outcome);
+		vf_class("ws-tx-concurrent/%s/frag=%zu/%s/%s", role_names[c.role], c.fragsize, cv_names[variant], outcome);
+		if (variant == CV_CANCEL) vf_stat("ws_tx_cancel_cases", 1);
+		if (variant == CV_PEER_CLOSE) vf_stat("ws_tx_peer_close_cases", 1);
+	}
+	close_phase(&e, &r, ok);
+	if ((idx % 23) == 0) vf_sample("{\"mode\":\"conc\",\"endpoint\":\"%s\",\"variant\":\"%s\",\"outcome\":\"%s\"}", e.desc, cv_names[variant], outcome);
+	ep_free(&e);
 }
 
 // ================================================================ rules mode
@@ -1927,7 +2425,7 @@ rules_case(long idx)
 		}
 		// wait for: the peer sees CLOSE and/or EOF (connection failed), or
 		// the application got something it must not get, or the bound expires
-		uint64_t end = vf_now_ns() + 10000000000ULL;
+		uint64_t end = vf_now_ns() + 30000000000ULL;
 		bool     failed = false, extra = false;
 		while (vf_now_ns() < end) {
 			emit_pump(&e);
@@ -1966,7 +2464,7 @@ rules_case(long idx)
 		}
 		if (!failed && !extra) {
 			snprintf(key, sizeof(key), "C16/ws-rule-not-failed/%s/%s", rules[ru].name, role_names[c.role]);
-			vf_violation(key, "%s: rule violation %s (reference: %s): the peer saw neither a CLOSE frame nor EOF within 10 s", e.desc, rules[ru].name, ref.viol);
+			vf_violation(key, "%s: rule violation %s (reference: %s): the peer saw neither a CLOSE frame nor EOF within 30 s", e.desc, rules[ru].name, ref.viol);
 		}
 		if (prefix && failed) vf_stat("ws_rule_enforced", 1);
 		if (e.emit.nclose) vf_stat("ws_rule_close_frame_seen", 1);
@@ -1984,14 +2482,13 @@ rules_case(long idx)
 // A listener must answer with something else than 101 (or close) and must
 // not hand a stream / pipe to the application; a dialer must fail the dial
 // (stream) or drop the connection without delivering anything (SP socket).
+static void hs_defect_case(long idx, vf_rng *rp, wscfg c, int df);
+
 static void
 hs_case(long idx)
 {
 	vf_rng r;
 	wscfg  c;
-	wsep   e;
-	bb     canary = { 0 };
-	char   key[160];
 	vf_rng_seed(&r, vf_seed, (uint64_t) idx);
 	gen_cfg(&r, &c, true);
 	c.role    = (int) (idx % NROLES);
@@ -2003,6 +2500,17 @@ hs_case(long idx)
 	int  df  = (srv ? HL_FIRST : HD_FIRST) + (int) ((idx / NROLES) % n);
 	if (!ROLE_IS_SP(c.role) && (df == HD_PROTO_MISSING || df == HD_PROTO_WRONG)) df = df == HD_PROTO_MISSING ? HD_ACCEPT_WRONG : HD_STATUS_200;
 	if (!ROLE_IS_SP(c.role) && (df == HL_PROTO_MISSING || df == HL_PROTO_WRONG)) df = df == HL_PROTO_MISSING ? HL_KEY_MISSING : HL_VERSION_8;
+	hs_defect_case(idx, &r, c, df);
+}
+
+static void
+hs_defect_case(long idx, vf_rng *rp, wscfg c, int df)
+{
+	vf_rng r = *rp;
+	wsep   e;
+	bb     canary = { 0 };
+	char   key[160];
+	bool   srv = ROLE_IS_SERVER(c.role);
 	c.hs_defect = df;
 	static const uint8_t cn[] = "\0\0\0\1HS-CANARY-MUST-NOT-BE-DELIVERED";
 	put_frame(&canary, true, 0, OP_BIN, srv, gen_mask(&r), cn, sizeof(cn) - 1, 0);
@@ -2026,7 +2534,7 @@ hs_case(long idx)
 		break;
 	case R_PD: {
 		// no pipe may come up: the connection must be dropped, nothing delivered
-		uint64_t end = vf_now_ns() + 10000000000ULL;
+		uint64_t end = vf_now_ns() + 30000000000ULL;
 		bool     got = false;
 		while (vf_now_ns() < end && !e.raw.eof && !got) {
 			rp_fill(&e.raw, 5);
@@ -2050,7 +2558,7 @@ hs_case(long idx)
 		outcome = "ACCEPTED";
 	} else if (undecided) {
 		snprintf(key, sizeof(key), "C16/ws-handshake-no-verdict/%s-%s/%s", srv ? "request" : "response", hs_names[df], role_names[c.role]);
-		vf_violation(key, "%s: upgrade %s with defect '%s': neither refused nor accepted within 10 s", e.desc, srv ? "request" : "response", hs_names[df]);
+		vf_violation(key, "%s: upgrade %s with defect '%s': neither refused nor accepted within 30 s", e.desc, srv ? "request" : "response", hs_names[df]);
 		outcome = "NO-VERDICT";
 	} else {
 		vf_stat("ws_hs_defect_refused", 1);
@@ -2058,6 +2566,111 @@ hs_case(long idx)
 	vf_stat("ws_hs_defect_cases", 1);
 	vf_class("ws-hs/%s-%s/%s/%s", srv ? "request" : "response", hs_names[df], role_names[c.role], outcome);
 	if ((idx % 29) == 0) vf_sample("{\"mode\":\"hs\",\"endpoint\":\"%s\",\"defect\":\"%s %s\",\"outcome\":\"%s\"}", e.desc, srv ? "request" : "response", hs_names[df], outcome);
+	ep_close(&e);
+	ep_free(&e);
+	bb_free(&canary);
+}
+
+// ================================================================ hsv mode
+// Valid spellings of the raw peer's half of the upgrade (RFC 7230: field names
+// are case-insensitive, Connection is a comma separated list with optional
+// whitespace, unknown fields are ignored; RFC 6455 4.1/4.2.1: the Upgrade
+// value is compared case-insensitively, a client may offer several
+// subprotocols): whether nng accepts or refuses each is recorded as a class
+// (the property does not demand acceptance); when it accepts, the frame that
+// follows must be delivered intact and nng's own half must parse strictly.
+// Near misses of the compared tokens (noupgrade, websocket2, <subprotocol>x
+// ...) are not upgrades to websocket / to our subprotocol: they must be
+// refused like any other defect and nothing behind them delivered.
+static bool
+cond_canary(wsep *e, void *arg)
+{
+	size_t want = *(size_t *) arg;
+	if (e->rx_stopped) return true;
+	return e->cfg.msgmode ? e->nmsg >= 1 : e->got.n >= want;
+}
+
+static void
+hsv_case(long idx)
+{
+	vf_rng r;
+	wscfg  c;
+	vf_rng_seed(&r, vf_seed, (uint64_t) idx);
+	gen_cfg(&r, &c, true);
+	c.role    = (int) (idx % NROLES);
+	int nsel  = (HV_NVARIANTS - 1) + (HX_LAST - HX_FIRST + 1);
+	int sel   = (int) ((idx / NROLES) % nsel);
+	c.msgmode = ROLE_IS_SP(c.role) || ((idx / (NROLES * nsel)) & 1);
+	c.sp1     = ROLE_IS_SP(c.role) && vf_chance(&r, 1, 2);
+	c.maxframe = c.recvmax = 0;
+	c.hs_plan = vf_chance(&r, 1, 3) ? (int) vf_range(&r, 1, 2) : 0;
+	bool srv = ROLE_IS_SERVER(c.role);
+	if (sel >= HV_NVARIANTS - 1) {
+		int df = HX_FIRST + (sel - (HV_NVARIANTS - 1));
+		// (stream roles have no subprotocol: the other near misses instead)
+		if (!ROLE_IS_SP(c.role) && df == HX_PROTO_SUFFIX) df = HX_CONN_NOUPGRADE;
+		if (!ROLE_IS_SP(c.role) && df == HX_PROTO_PREFIX) df = HX_UPGRADE_SUFFIX;
+		vf_stat("ws_hs_nearmiss_cases", 1);
+		hs_defect_case(idx, &r, c, df);
+		return;
+	}
+	int hv = 1 + sel;
+	// (several subprotocols can only be offered where there is one; stream
+	// listeners get the optional whitespace instead)
+	if (hv == HV_MULTI_PROTO_OR_REASON && c.role == R_SL) hv = HV_OWS;
+	c.hs_var = hv;
+	wsep   e;
+	bb     canary = { 0 };
+	char   key[160];
+	static const uint8_t cn[] = "\0\0\0\1HS-VARIANT-CANARY-MUST-BE-DELIVERED";
+	size_t strip = c.sp1 ? 4 : 0;
+	size_t want  = sizeof(cn) - 1 - strip;
+	put_frame(&canary, true, 0, OP_BIN, srv, gen_mask(&r), cn, sizeof(cn) - 1, 0);
+	vf_case_begin(idx, "ws upgrade spelling %s on %s%s", hv_name(c.role, hv), role_names[c.role], c.sp1 ? "(pair1)" : "");
+	bool with_hs = !srv && vf_chance(&r, 1, 2);
+	bool up = ep_open(&e, &c, with_hs ? &canary : NULL);
+	// Whether a valid spelling is understood is recorded, not judged (the
+	// property does not say so).  Once nng has accepted it - answered 101 and
+	// handed out the stream / completed the dial - the frame behind it must be
+	// delivered intact, and its own half of the upgrade has been through the
+	// strict parser (handshake_as_client / handshake_as_server).  An SP dialer
+	// shows acceptance only by delivering: dropping the connection is a refusal.
+	const char *outcome = "accepted";
+	if (up) {
+		if (!with_hs) vf_fd_write_all(e.raw.fd, canary.p, canary.n, 5000);
+		// "never" is the verdict: the connection is dropped, or nothing arrives for 120 s
+		uint64_t end = vf_now_ns() + 120000000000ULL;
+		bool     got = false;
+		while (vf_now_ns() < end && !got) {
+			pthread_mutex_lock(&e.mtx);
+			got = cond_canary(&e, &want);
+			pthread_mutex_unlock(&e.mtx);
+			if (got || e.raw.eof) break;
+			rp_fill(&e.raw, 2);
+		}
+		pthread_mutex_lock(&e.mtx);
+		bool same = !e.rx_stopped && e.got.n >= want && memcmp(e.got.p, cn + strip, want) == 0 && (!e.cfg.msgmode || (e.nmsg >= 1 && e.bound[0] == want));
+		pthread_mutex_unlock(&e.mtx);
+		pthread_mutex_lock(&e.mtx);
+		bool nothing = e.got.n == 0 && e.nmsg == 0;
+		pthread_mutex_unlock(&e.mtx);
+		if (same) {
+			vf_stat("ws_hs_variant_accepted", 1);
+		} else if (c.role == R_PD && e.raw.eof && nothing) {
+			outcome = "refused";
+		} else {
+			snprintf(key, sizeof(key), "C16/ws-handshake-variant/frame-behind-accepted-upgrade-%s/%s-%s/%s", nothing ? "lost" : "differs", srv ? "request" : "response", hv_name(c.role, hv), role_names[c.role]);
+			vf_violation(key, "%s: upgrade %s (spelling variant %s) was accepted by nng, but %s", e.desc, srv ? "request" : "response", hv_name(c.role, hv),
+			    !nothing ? "the frame that follows was delivered with other content" : e.raw.eof ? "nng dropped the connection instead of delivering the frame that follows" : "the frame that follows was not delivered within 120 s");
+			outcome = "FRAME-LOST";
+		}
+	} else {
+		outcome = "refused";
+	}
+	if (!strcmp(outcome, "refused")) vf_stat("ws_hs_variant_refused", 1);
+	vf_stat("ws_hs_variant_cases", 1);
+	vf_class("ws-hs-valid/%s-%s/%s/%s", srv ? "request" : "response", hv_name(c.role, hv), role_names[c.role], outcome);
+	if ((idx % 17) == 0) vf_sample("{\"mode\":\"hsv\",\"endpoint\":\"%s\",\"variant\":\"%s %s\",\"outcome\":\"%s\"}", e.desc, srv ? "request" : "response", hv_name(c.role, hv), outcome);
 	ep_close(&e);
 	ep_free(&e);
 	bb_free(&canary);
@@ -2072,14 +2685,16 @@ main(int argc, char **argv)
 	crypto_selftest();
 	bool valid = !strcmp(vf_mode, "valid");
 	bool hs    = !strcmp(vf_mode, "hs");
-	if (!valid && !hs && strcmp(vf_mode, "rules") != 0) vf_harness_fail("unknown mode '%s'", vf_mode);
+	bool hsv   = !strcmp(vf_mode, "hsv");
+	bool conc  = !strcmp(vf_mode, "conc");
+	if (!valid && !hs && !hsv && !conc && strcmp(vf_mode, "rules") != 0) vf_harness_fail("unknown mode '%s'", vf_mode);
 	vf_nng_init(4, 1, 2);
 	globals_up();
 	long since = 0;
 	for (long i = 0; i < vf_cases; i++) {
 		if (!vf_want_case(i)) continue;
 		vf_watchdog(180);
-		if (valid) valid_case(i); else if (hs) hs_case(i); else rules_case(i);
+		if (valid) valid_case(i); else if (hs) hs_case(i); else if (hsv) hsv_case(i); else if (conc) conc_case(i); else rules_case(i);
 		vf_stat("cases", 1);
 		if (++since >= (valid ? 40 : 150)) {
 			since = 0;
